@@ -305,6 +305,8 @@ class Tables:
             if THOROUGH:
                 small = [("W", 1), ("WW", 1), ("WW", 0), ("B", 1), ("W", 0)]
                 shapes += [(a, b, c) for a in small for b in small for c in small]
+                tiny = [("W", 1), ("WW", 0), ("B", 1)]
+                shapes += [(a, b, c, d) for a in tiny for b in tiny for c in tiny for d in tiny]
             for sh in shapes:
                 objs = {}
                 for i, (c, live) in enumerate(sh):
